@@ -194,6 +194,13 @@ def rule_checks(S, res, phases, labs):
         for name, need, count in ob.get("need", []):
             hits = [c for c in mine if need <= c.ing]
             sites = {(c.bk, c.block) for c in hits}
+            if count > 1 and "PEER_MAC" in need:
+                # what has to be covered are the MAC components of the message: one comparison of a tuple of MACs
+                # covers as many of them as two comparisons of one MAC each
+                comp = S.comp.get(l, {})
+                macs = {n for c in hits for n in c.cond_nodes if n in comp and n[0] != "F" and n[2] is None and S.node_ty(n).lstrip("&").endswith("data_types::Mac")}
+                if len(macs) >= count and len(sites) < count:
+                    sites = macs
             inst = "%s|%s" % (l, name)
             if len(sites) >= count:
                 c = hits[0]
@@ -416,6 +423,14 @@ def rule_every_element(S, res, phases, cs):
                         for st in b.blocks[g.block]["s"]:
                             if st["k"] == "assign" and st["r"]["k"] == "bin" and st["r"]["op"] in ("Ne", "Eq"):
                                 exact = True
+                        if not exact:
+                            # the comparison was stored (a flag, or one slot of a matched tuple of flags) before the branch
+                            cl = {x[1] for x in g.cond_nodes if x[0] == g.bk}
+                            for xb, blk_ in enumerate(b.blocks):
+                                for st in blk_["s"]:
+                                    if st["k"] == "assign" and st["r"]["k"] == "bin" and st["r"]["op"] in ("Ne", "Eq") and st["p"]["l"] in cl \
+                                            and any(root_local(b, o_) is not None and b.locals[root_local(b, o_)]["ty"] == "usize" for o_ in (st["r"]["a"], st["r"]["b"]) if o_["k"] != "const"):
+                                        exact = True
                         lens = False
                         for cbi, names in g.calls:
                             if any(x.rsplit("::", 1)[-1] == "len" for x in names):
@@ -644,6 +659,40 @@ def describe_switch_cond(S, bk, b, x):
             if n[1] == 1 and n[2] not in (None, "*") and n[2] < len(b.upvars):
                 info["names"].add(b.upvars[n[2]].replace("_ref__", ""))
     info["comp"] = any(S.labels_of(n) for n in back)
+    if info["comp"] and info["op"] in ("Eq", "Ne") and l is not None:
+        # `for (k, x) in received.iter().enumerate() { if k == i { continue } .. }`: the position counter of an
+        # enumerate() over a message is not message content
+        usz = False
+        for s in b.blocks[x]["s"]:
+            if s["k"] == "assign" and s["p"]["l"] == l and s["r"]["k"] == "bin":
+                usz = all(o["k"] == "const" or o["p"].get("ty") == "usize" for o in (s["r"]["a"], s["r"]["b"]))
+        if usz:
+            def no_enum(e):
+                if e.kind == "call":
+                    nm = (e.info or {}).get("names") or []
+                    if nm and nm[-1].rsplit("::", 1)[-1] == "next" and any("enumerate::Enumerate" in x_ for x_ in nm):
+                        return False
+                    return bool(nm) and nm[-1].rsplit("::", 1)[-1] in ("deref", "get", "copied", "cloned", "flatten", "next", "eq", "ne", "is_some", "is_none", "contains", "as_ref", "index", "to_be_bytes", "to_le_bytes")
+                return e.kind in SH
+            enum_items = set()
+            for cbi, ct in b.calls():
+                nm = callee_names(ct)
+                if nm and nm[-1].rsplit("::", 1)[-1] == "next" and any("enumerate::Enumerate" in x_ for x_ in nm):
+                    enum_items.add(ct["d"]["l"])
+            # the counter is read as `(item as Some).0.0`; the item itself stays message content
+            cnt = set()
+            for blk_ in b.blocks:
+                for s in blk_["s"]:
+                    if s["k"] == "assign" and s["r"]["k"] == "use" and s["r"]["o"]["k"] != "const" and not s["p"]["pr"]:
+                        pp = s["r"]["o"]["p"]
+                        fs = [q for q in pp["pr"] if isinstance(q, dict) and "f" in q]
+                        if pp["l"] in enum_items and len(fs) == 2 and fs[0]["f"] == 0 and fs[1]["f"] == 0 and pp.get("ty") == "usize":
+                            cnt.add(s["p"]["l"])
+            cfw = fg.forward([(bk, l_, None) for l_ in cnt], edge_ok=lambda e: e.kind in ("copy", "ref", "cast") and e.dst[0] == bk)
+            cnt |= {n[1] for n in cfw if n[0] == bk and b.locals[n[1]]["ty"].lstrip("&") == "usize"}
+            back2 = fg.backward(fg.operand_nodes(bk, t["o"]), node_ok=lambda n: n[0] == "F" or (n[0] == bk and n[1] not in cnt), local=True, edge_ok=no_enum)
+            back2 = {n: e for n, e in back2.items() if not (n[0] == bk and n[1] in cnt)}
+            info["comp"] = any(S.labels_of(n) for n in back2)
     # result of a call in the predecessor (e.g. contains / ne)
     for pb in b.pred()[x]:
         pt = b.blocks[pb]["t"]
@@ -1050,6 +1099,15 @@ def rule_conjunct(S, res, phases, cs):
         res.ok("R2.10", "engine", "", "%d comparison(s) of received values that continue into another comparison: each looks at the same value again (alternatives), none needs a second wrong value to reject" % n)
 
 
+def fg_in(S, node):
+    """incoming value-flow edges of a local, all of its field nodes included"""
+    out = []
+    for n, es in S.fg.inn.items():
+        if n[0] == node[0] and n[1] == node[1]:
+            out += es
+    return out
+
+
 def rule_claimed_bit(S, res, cs):
     """aShare step 3c: the check bits the peers claim arrive with MACs under the own key; they are verified, before
     the opening, against the value that is about to be opened (shared by C04 and C07)."""
@@ -1070,7 +1128,22 @@ def rule_claimed_bit(S, res, cs):
         for c in before:
             for o in opens:
                 pl = _rl(o.body, o.term["args"][-1])
-                if pl is not None and any(n[0] == c.bk and n[1] == pl for n in c.cond_nodes):
+                if pl is None:
+                    continue
+                # the opened vector, and the scalars that are stored / pushed into it - up to (and including) the
+                # variable that receives the selected one of d0 / d1, not the two candidates behind it
+                feeds = {pl}
+                work = [pl]
+                while work:
+                    x_ = work.pop()
+                    if x_ != pl and len(defs_of(o.body, x_)) != 1:
+                        continue
+                    for e in fg_in(S, (c.bk, x_, None)):
+                        if e.kind in ("copy", "mutarg", "alias", "alias_fb", "field2whole") and e.src[0] == c.bk and e.src[1] not in feeds \
+                                and o.body.locals[e.src[1]]["ty"].lstrip("&") in ("u128", "alloc::vec::Vec<u128, alloc::alloc::Global>"):
+                            feeds.add(e.src[1])
+                            work.append(e.src[1])
+                if any(n[0] == c.bk and n[1] in feeds for n in c.cond_nodes):
                     bound.append(c)
         if before and not bound:
             res.bad("R2.1", "fashare ver|claimed-bit-mac", "the MACs of the claimed check bits are not compared with the value that is opened afterwards (the one of d0 / d0^Delta selected by those bits): a peer that misreports its bit but sends its true MAC passes, and obtains the other value", before[0].where(),
